@@ -430,6 +430,10 @@ impl Data {
                 is_capture,
                 dst,
             } => {
+                if piece == Piece::Pawn {
+                    // Pawn moves must be stored in the dedicated variants; `Simple` cannot hold them.
+                    return Err(IntoMoveError::Create(CreateError::NotWellFormed));
+                }
                 if is_capture && b.get(dst).is_free() {
                     return Err(IntoMoveError::CaptureExpected);
                 }
